@@ -41,6 +41,7 @@ type clientSpec struct {
 	ID     int      `json:"id"`
 	Kind   string   `json:"kind"`
 	Extras []string `json:"offered_protocols"`
+	State  bool     `json:"dials_with_client_state,omitempty"`
 	Want   string   `json:"model_delivery"` // listener name set joined by "|" or "closed"
 	Got    string   `json:"got"`
 }
@@ -167,6 +168,7 @@ func TestProp_Routing(t *testing.T) {
 			}
 			cs := &clientSpec{ID: i}
 			cs.Kind = rapid.SampledFrom([]string{"authenticated", "authenticated", "base-tls", "base-tls", "fetch-only", "failing"}).Draw(t, "kind")
+			cs.State = cs.Kind == "authenticated" && rapid.Bool().Draw(t, "dialsWithState")
 			kinds[cs.Kind] = true
 			k := rapid.IntRange(0, 3).Draw(t, "nProtos")
 			for j := 0; j < k; j++ {
@@ -226,7 +228,11 @@ func TestProp_Routing(t *testing.T) {
 				var conn net.Conn
 				switch cs.Kind {
 				case "authenticated":
-					c, err := rig.Dial(node, nodeenrollment.WithExtraAlpnProtos(cs.Extras))
+					do := []nodeenrollment.Option{nodeenrollment.WithExtraAlpnProtos(cs.Extras)}
+					if cs.State {
+						do = append(do, nodeenrollment.WithState(vkit.UniqueStruct(fmt.Sprintf("client-%d", cs.ID))))
+					}
+					c, err := rig.Dial(node, do...)
 					if err != nil {
 						cs.Got = "dial-error: " + err.Error()
 						return
